@@ -583,6 +583,11 @@ class SeqExec(HeapExec):
 
 def _elem_of_sort(t):
     from z3 import StringSort
+    nm = t.sort().name() if hasattr(t.sort(), "name") else ""
+    if "Row" in str(t.sort()):
+        return "row"
+    if "LastPair" in str(t.sort()):
+        return "lastpair"
     if t.sort() == SeqSeqR:
         return "qseq"
     if t.sort() == SeqSort(StringSort()):
@@ -662,6 +667,7 @@ class SeqWorld:
             p.extra["objs"] = {"self0": dict(spec.fields(ctx))}
         else:
             p.extra["objs"] = {"self0": {}}
+        p.extra["objs"].update(p.extra.pop("objs_extra", {}))
 
     def gen_value(self, p):
         return qseq(p.out, "qseq" if p.out.sort() == SeqSeqR else "ref")
